@@ -714,6 +714,27 @@ def bump_explicit_above(prog, node=None, var=None):
     return bumped
 
 
+def make_equal_vars(prog):
+    """(initial edition, next edition, description) or None: three number variables of module a hold the values
+    1, 2, 1 and one memento function of module a reads all of them; the edit sets the third to 2 - the multiset of
+    values the function sees changes, the set of distinct values does not."""
+    nodes = prog["nodes"]
+    users = [i for i, nd in enumerate(nodes) if nd["mod"] == "a" and nd["kind"] in ("memento", "plain")]
+    if not users:
+        return None
+    p0 = copy.deepcopy(prog)
+    base = len(p0["vars"])
+    for k, val in enumerate([1, 2, 1]):
+        p0["vars"].append({"name": "GE%d" % k, "mod": "a", "type": "num", "value": val})
+        p0["nodes"][users[0]]["reads"].append({"v": base + k, "form": "bare"})
+    p1 = copy.deepcopy(p0)
+    p1["vars"][base + 2]["value"] = 2
+    desc = {"kind": "var_value", "node": None, "var": base + 2, "note": "takes the value another variable holds"}
+    desc["bumped"] = bump_explicit_above(p1, var=base + 2)
+    desc["changed_defs"] = sorted(set(desc["bumped"]))
+    return p0, p1, desc
+
+
 def resplit_pair(prog):
     """Two explicitly versioned memento functions of one module that one automatically versioned function calls
     directly by bare name, in the order of their names - or None. Used for aimed histories in which the two version
